@@ -65,12 +65,14 @@ Frame(s, s2) == s2.ins = s.ins /\ s2.ord = s.ord /\ s2.insw = s.insw /\ s2.ordw 
 \* =========================== add_child(k named a, forward) =================
 \* pure: the history so far consists of successful, un-forwarded adds only
 \* M == [A |-> automaton, P |-> Plus(A), FD |-> FirstDown(A)]  (precomputed per type: SchemaDerived)
-AddClauses(M, s, k, a, fwd, pure, r, s2) ==
+\* free: no earlier add of this history used forward (a forwarded child pins an alternative the user chose; what is
+\* rejected afterwards because of that choice is not held against C12)
+AddClauses(M, s, k, a, fwd, pure, free, r, s2) ==
   LET A == M.A  P == M.P  FD == M.FD
       ante == [
         C02_accept |-> s.chk /\ pure /\ fwd = NoFwd /\ s.ordw = s.insw /\ ViablePrefix(A, Append(s.insw, a)),
         C07_ext    |-> s.chk /\ r.ok,
-        C12_reject |-> s.chk /\ ~r.ok /\ fwd = NoFwd,
+        C12_reject |-> s.chk /\ ~r.ok /\ fwd = NoFwd /\ free,
         C18_free   |-> ~s.chk,
         C06_add    |-> r.ok,
         C10_frame  |-> ~r.ok,
